@@ -2,6 +2,7 @@ package props
 
 import (
 	"fmt"
+	"go/token"
 	"strings"
 
 	"golang.org/x/tools/go/ssa"
@@ -546,4 +547,49 @@ func rejectionsListed(e *Env, rule string, fn *ssa.Function, success gate.Outcom
 		}
 	}
 	return n
+}
+
+// bytesEqual: the two byte strings were compared for equality and found equal,
+// in any of the equivalent idioms (bytes.Equal, bytes.Compare == 0,
+// subtle.ConstantTimeCompare == 1), operands in either order.
+func bytesEqual(key, desc, a, b string) gate.Gate {
+	var gs []gate.Gate
+	for _, ab := range [][2]string{{a, b}, {b, a}} {
+		gs = append(gs,
+			gate.CallBool("", "bytes.Equal", true, ab[0], ab[1]),
+			gate.Cmp("", "call:bytes.Compare("+ab[0]+","+ab[1]+")", token.EQL, "const:0"),
+			gate.Cmp("", "call:subtle.ConstantTimeCompare("+ab[0]+","+ab[1]+")", token.EQL, "const:1"))
+	}
+	return either(key, desc, gs...)
+}
+
+// bytesEqualTerm: the provenance alternatives of "a equals b" as a value.
+func bytesEqualTerm(a, b string) string {
+	var alts []string
+	for _, ab := range [][2]string{{a, b}, {b, a}} {
+		alts = append(alts, "call:bytes.Equal("+ab[0]+","+ab[1]+")",
+			"(call:bytes.Compare("+ab[0]+","+ab[1]+") == const:0)",
+			"(call:subtle.ConstantTimeCompare("+ab[0]+","+ab[1]+") == const:1)")
+	}
+	return strings.Join(alts, " || ")
+}
+
+// bytesDiffer: the two byte strings were compared and found different, in any
+// of the equivalent idioms, operands in either order.
+func bytesDiffer(key, desc, a, b string) gate.Gate {
+	var gs []gate.Gate
+	for _, ab := range [][2]string{{a, b}, {b, a}} {
+		gs = append(gs,
+			gate.CallBool("", "bytes.Equal", false, ab[0], ab[1]),
+			gate.Cmp("", "call:bytes.Compare("+ab[0]+","+ab[1]+")", token.NEQ, "const:0"),
+			gate.Cmp("", "call:subtle.ConstantTimeCompare("+ab[0]+","+ab[1]+")", token.NEQ, "const:1"))
+	}
+	return either(key, desc, gs...)
+}
+
+// errIs: the error value is the sentinel, tested with == or errors.Is.
+func errIs(key, errTerm, sentinel string) gate.Gate {
+	return either(key, errTerm+" is "+sentinel,
+		gate.Cmp("", errTerm, token.EQL, sentinel),
+		gate.CallBool("", "errors.Is", true, errTerm, sentinel))
 }
